@@ -2,7 +2,10 @@ package props
 
 import (
 	"fmt"
+	"math"
 
+	"github.com/cockroachdb/apd/v2"
+	compact_float "github.com/kstenerud/go-compact-float"
 	"github.com/kstenerud/go-concise-encoding/ce"
 	"github.com/kstenerud/go-concise-encoding/ce/events"
 	"pgregory.net/rapid"
@@ -57,6 +60,14 @@ var c10Alphabet = map[string]c10Entry{
 	"MEDIA": {model.Sym{Kind: model.SNonKeyable}, ev.Event{K: ev.Media, S: "a/b", Bs: []byte{1}}},
 	"K3":    {model.Sym{Kind: model.SKeyable, KeyID: "i:-3"}, ev.Event{K: ev.NInt, U: 3}},
 	"S2":    {model.Sym{Kind: model.SKeyable, KeyID: "s:bb"}, ev.Event{K: ev.Array, AT: events.ArrayTypeString, U: 2, Bs: []byte("bb")}},
+	// values the validator rewrites before it counts them: a NaN delivered in each number form becomes one
+	// NaN object, a nil big number becomes one null
+	"FNAN":  {model.Sym{Kind: model.SNonKeyable}, ev.Event{K: ev.Float, F: math.NaN()}},
+	"DNAN":  {model.Sym{Kind: model.SNonKeyable}, ev.Event{K: ev.DFloat, DF: compact_float.QuietNaN()}},
+	"BDNAN": {model.Sym{Kind: model.SNonKeyable}, ev.Event{K: ev.BigDFloat, BDF: &apd.Decimal{Form: apd.NaN}}},
+	"NILBI": {model.Sym{Kind: model.SNull}, ev.Event{K: ev.BigInt}},
+	"NILBF": {model.Sym{Kind: model.SNull}, ev.Event{K: ev.BigFloat}},
+	"NILBD": {model.Sym{Kind: model.SNull}, ev.Event{K: ev.BigDFloat}},
 	// a marker with a fresh identifier (the i-th occurrence gets the identifier m<i>); markers are
 	// transparent for well-formedness: "&m1:null" is still a null
 	"MK": {model.Sym{Kind: model.SMarker}, ev.Event{K: ev.Marker}},
@@ -65,7 +76,7 @@ var c10Alphabet = map[string]c10Entry{
 var c10Enum = []string{"BD", "V0", "V1", "ED", "NULL", "K", "K2", "F", "S", "A", "LIST", "MAP", "EDGE", "NODE", "END", "RT(a)", "RT(b)", "REC(a)", "REC(b)"}
 var c10All = func() []string {
 	out := append([]string{}, c10Enum...)
-	return append(out, "TRUE", "UID", "NAN", "BIGF", "RID", "MEDIA", "K3", "S2", "MK", "MK")
+	return append(out, "TRUE", "UID", "NAN", "BIGF", "RID", "MEDIA", "K3", "S2", "MK", "MK", "FNAN", "DNAN", "BDNAN", "NILBI", "NILBF", "NILBD")
 }()
 
 // implVerdict plays the concrete events into a fresh validator: index of the first rejected event, -1 if none.
